@@ -23,7 +23,7 @@ class Unsupported(Exception):
     pass
 
 
-LEAN_TY = {"R": "α", "E": "Ext α", "B": "Bool", "N": "Nat", "I": "Int", "OR": "Option α", "C": "Cx α"}
+LEAN_TY = {"R": "α", "E": "Ext α", "B": "Bool", "N": "Nat", "I": "Int", "OR": "Option α", "C": "Cx α", "T": "TheoryName"}
 
 
 def lean_ty(t):
@@ -169,10 +169,11 @@ class Translator:
                 raise Unsupported("complex constant %r" % (e.value,))
             return (rconst(e.value), "R")
         src = ast.unparse(e)
-        if isinstance(e, (ast.Name, ast.Attribute, ast.Subscript)):
-            v = self.lookup(src, env)
-            if v is not None:
-                return v
+        v = self.lookup(src, env)       # a name, an attribute chain, or a whole expression the specification treats as an input
+        if v is not None:
+            return v
+        if isinstance(e, ast.Call) and not e.args and not e.keywords and ast.unparse(e.func) in self.spec.get("enum", {}):
+            return ("(%s)" % self.spec["enum"][ast.unparse(e.func)], "T")
         if isinstance(e, ast.Name):
             if e.id in self.consts:
                 return (rconst(self.consts[e.id]), "R")
@@ -477,7 +478,8 @@ class Translator:
             v = self.expr(value, env)
         except Unsupported as ex:
             for n in names:
-                env[n] = Poison(str(ex))
+                a = self.spec.get("assume", {}).get(n)
+                env[n] = (a[0], a[1]) if a else Poison(str(ex))
             return env
         if len(names) == 1:
             env[names[0]] = v
@@ -561,6 +563,8 @@ class Translator:
                     if k.startswith("self."):
                         env[k] = v
             elif isinstance(st, ast.Expr) and isinstance(st.value, ast.Constant):
+                continue
+            elif isinstance(st, ast.Expr) and isinstance(st.value, ast.Call) and ast.unparse(st.value.func) in self.spec.get("skip_calls", []):
                 continue
             else:
                 raise Unsupported("statement %s" % type(st).__name__)
@@ -662,6 +666,8 @@ class Translator:
         st, rest = stmts[0], stmts[1:]
         if isinstance(st, ast.Expr) and isinstance(st.value, ast.Constant):
             return self.block(rest, env, indent)
+        if isinstance(st, ast.Expr) and isinstance(st.value, ast.Call) and ast.unparse(st.value.func) in self.spec.get("skip_calls", []):
+            return self.block(rest, env, indent)      # a side effect outside the model (a warning)
         if isinstance(st, ast.Return):
             return pad + self.leaf_return(st.value, env)
         if isinstance(st, ast.Raise):
@@ -778,6 +784,8 @@ class Translator:
                 env[key] = (proj, ty)
             else:
                 env[key] = (lname, ty)
+            sig.append("(%s : %s)" % (lname, lean_ty(ty)))
+        for nm, (lname, ty) in spec.get("assume", {}).items():
             sig.append("(%s : %s)" % (lname, lean_ty(ty)))
         # every positional parameter of the Python function must be accounted for
         declared = {k for k, _, _ in spec["params"]} | set(spec.get("ignore_params", []))
@@ -921,12 +929,29 @@ LENS_SPECS = [
          outputs=[("pol_angle", "R")]),
 ]
 
+RULE_ENUM = {"Mie": "TheoryName.mie", "Multisphere": "TheoryName.multisphere", "Tmatrix": "TheoryName.tmatrix", "DDA": "TheoryName.dda"}
+RULE_SPECS = [
+    dict(fn="_choose_mie_vs_multisphere", lean="choose_mie_vs_multisphere", raises=True, ret="T", enum=RULE_ENUM, skip_calls=["warn"],
+         params=[("len(spheres.scatterers)", "count", "N"), ("any(center_or_radius_not_set)", "unset", "B"),
+                 ("any([not np.isscalar(sphere.r) for sphere in spheres.scatterers])", "layered", "B")],
+         ignore_params=["spheres"],
+         # the NumPy reductions are modelled by hand (maxOf, maxSep2 in HoloModel/Cluster.lean) and tied by correspondence
+         assume={"max_radius": ("rmax", "R"), "max_separation": ("sep", "R")}),
+] + [
+    dict(fn="determine_default_theory_for", lean="default_theory_" + kind.lower(), raises=True, ret="T", enum=RULE_ENUM,
+         isinstance={"scatterer": kind},
+         params=[("_choose_mie_vs_multisphere(scatterer)", "chosen", "T"), ("DDA.can_handle(scatterer)", "dda_can", "B")],
+         ignore_params=["scatterer"])
+    for kind in ("Sphere", "Spheres", "Spheroid", "Cylinder", "Other")
+]
+
 FILES = {
     "PyPrior": ("holopy/core/prior.py", ["HoloModel.ExtArith"], PRIOR_SPECS, "pyPriorFailures"),
     "PyAcc": ("holopy/core/io/io.py", ["HoloModel.Scalar"], ACC_SPECS, "pyAccFailures"),
     "PyTmatrix": ("holopy/scattering/theory/tmatrix.py", ["HoloModel.Tmatrix"], TM_SPECS, "pyTmatrixFailures"),
     "PyMieLens": ("holopy/scattering/theory/mielens.py", ["HoloModel.CxExtra"], MIELENS_SPECS, "pyMieLensFailures"),
     "PyLens": ("holopy/scattering/theory/lens.py", ["HoloModel.CxExtra"], LENS_SPECS, "pyLensFailures"),
+    "PyRule": ("holopy/scattering/interface.py", ["HoloModel.Cluster"], RULE_SPECS, "pyRuleFailures"),
 }
 
 
